@@ -142,6 +142,12 @@ class Timeline(object):
     def __init__(self, dicts, options=None, output_mode="svg"):
         # update latex options
         latex_opts = {k: v for k, v in DEFAULT_OPTIONS["latex"].items()}
+        # never share the default scale or engine options between timelines
+        options = {} if options is None else dict(options)
+        if "scale" not in options:
+            options["scale"] = TimeScale()
+        if "labella" not in options:
+            options["labella"] = {}
         if "latex" in options:
             latex_opts.update(options["latex"])
         options["latex"] = latex_opts
